@@ -414,12 +414,14 @@ func (d *c02Drv) do(transport string, env *c02Env, path string, sc *c02Scenario,
 			defer func() { served <- recover() }()
 			env.bound.router.ServeHTTP(rec, req)
 		}()
+		hang := time.NewTimer(c02Hang)
 		select {
 		case escaped := <-served:
+			hang.Stop()
 			if escaped != nil {
 				return c02Obs{err: fmt.Sprintf("panic escaped the chain: %v", escaped)}
 			}
-		case <-time.After(c02Hang):
+		case <-hang.C:
 			return c02Obs{err: "HUNG no response within " + c02Hang.String() + c02Dump()}
 		}
 		// the handler goroutine may still be running its post steps (or, on a stalled machine, may not
@@ -691,6 +693,55 @@ func (d *c02Drv) runScript(c kit.Case, m kit.M) kit.Verdict {
 	return v
 }
 
+// ---------------------------------------------------------------- stress: one scenario, many concurrent requests
+
+// runStress serves the same in-time scenario `n` times from 64 concurrent clients through the bound
+// chain (recorder path); every single answer must be in the specification's set. Aimed at outcomes
+// that depend on how the handler goroutine and the ServeHTTP select are scheduled (e.g. a panic
+// that is lost when `done` and `panicChan` are both ready).
+func (d *c02Drv) runStress(c kit.Case, m kit.M) kit.Verdict {
+	v := kit.Verdict{Case: c.Index, OK: true}
+	steps := c02Steps(m["steps"])
+	exp := m["exp"].(map[string]any)
+	mb := int64(kit.Num(m["cfg"].(map[string]any)["maxBytes"]))
+	n := kit.Num(m["n"])
+	class := c02Class(m)
+	var next, bad atomic.Int64
+	var mu sync.Mutex
+	var wg sync.WaitGroup
+	for w := 0; w < 64; w++ {
+		wg.Add(1)
+		go func() {
+			defer wg.Done()
+			for next.Add(1) <= int64(n) && bad.Load() == 0 {
+				sc := d.newScenario(d.main)
+				sc.steps, sc.term, sc.npre = steps, kit.Str(m["term"]), len(steps)+1
+				o := d.do("rec", d.main, c02Path("long", mb), sc, 0, false, true)
+				d.reg.Delete(sc.id)
+				if ok, why := c02Match(exp, o); !ok {
+					bad.Add(1)
+					mu.Lock()
+					if v.OK {
+						v.OK = false
+						v.Key = "C02:rest:rec:stress-" + class + ":" + why
+						v.Msg = fmt.Sprintf("stress: request #%d of %d concurrent in-time %s scenarios script=%s term=%s: client saw %s, specification allows %s",
+							next.Load(), n, class, kit.Canon(m["steps"]), kit.Str(m["term"]), o, c02Want(exp))
+					}
+					mu.Unlock()
+				}
+			}
+		}()
+	}
+	wg.Wait()
+	done := int(next.Load())
+	if done > n {
+		done = n
+	}
+	v.Steps = done
+	d.rep.Count("rec.stress-"+class, done)
+	return v
+}
+
 // ---------------------------------------------------------------- MaxConns histories
 
 type c02Pending struct {
@@ -859,6 +910,8 @@ func TestVerifC02(t *testing.T) {
 					rep.Put(d.runScript(c, m))
 				case "conns":
 					rep.Put(d.runConns(c, m))
+				case "stress":
+					rep.Put(d.runStress(c, m))
 				default:
 					rep.Put(kit.Verdict{Case: c.Index, Infra: true, Msg: "unknown mode " + kit.Str(m["mode"])})
 				}
